@@ -11,6 +11,14 @@ a package-level variable in any function reachable from a runtime entry point (m
 implementing Inspector, Assign*, the buffer API, Bufferize*, EqualFloat*, DEQMustCheck, GetInspector). -/
 theorem no_runtime_global_writes : runtimeGlobalWrites = [] := by decide
 
+/-- The second half of the frame hypothesis, from the same extraction: no function reachable from a runtime
+entry point hands out memory of a package-level variable — its address, or a slice / map / pointer loaded from
+it — by returning it, storing it, boxing it, capturing it or appending / copying into it. (A store *through* such
+a handed-out reference happens in the caller's code or behind a pointer parameter, where the store table cannot
+see it: `NewByteBuffer` returning the address of one package-level buffer makes every caller's "own" buffer the
+same object without a single store to a package-level variable.) -/
+theorem no_runtime_global_escapes : runtimeGlobalEscapes = [] := by decide
+
 /-- Non-interference over schedules: if no call stores to shared state then, for every interleaving,
 the shared state never changes and every goroutine gets exactly the answers it gets when it runs its
 own calls alone. Induction over the schedule. -/
